@@ -707,7 +707,7 @@ struct AdfFile * adfFileOpen ( struct AdfVolume * const vol,
         return NULL;
     }
 
-    if ( modeWrite && vol->dev->readOnly ) {
+    if ( modeWrite && ( vol->readOnly || vol->dev->readOnly ) ) {
         (*adfEnv.wFct)("adfFileOpen : device is mounted 'read only'");
         return NULL;
     }
